@@ -946,6 +946,11 @@ def _wt_verdict(f, start):
                 pl = op_place(rv["a"])
                 if l is not None and pl is not None and not pl.get("p"):
                     env[lhs["l"]] = set(env.get(l, {"?"}))
+                    if (l, "payload") in env:
+                        env[(lhs["l"], "payload")] = set(env[(l, "payload")])
+                elif pl is not None and len(pl.get("p", ())) == 2 and isinstance(pl["p"][0], dict) and "dc" in pl["p"][0] and \
+                        isinstance(pl["p"][1], dict) and pl["p"][1].get("f") == "0" and (pl["l"], "payload") in env:
+                    env[lhs["l"]] = set(env[(pl["l"], "payload")])
                 elif pl is not None and len(pl.get("p", ())) == 1 and isinstance(pl["p"][0], dict) and "f" in pl["p"][0]:
                     env[lhs["l"]] = set(env.get((pl["l"], pl["p"][0]["f"]), {"other@%s" % st["ln"]}))
                 elif "c" in rv["a"]:
@@ -955,6 +960,12 @@ def _wt_verdict(f, start):
                     env[lhs["l"]] = {"other@%s" % st["ln"]}
             elif rv["k"] == "agg":
                 env[lhs["l"]] = {"%s@%s" % ((rv.get("n") or "agg").rsplit("::", 1)[-1], st["ln"])}
+                # a reply wrapped for an early exit: `Some(reply)` / `Err(reply)` built by a helper and unwrapped by its caller
+                if str(rv.get("n", "")).rsplit("::", 1)[-1] in ("Some", "Err", "Ok", "Break") and len(rv.get("ops") or []) == 1:
+                    ol_ = op_local(rv["ops"][0])
+                    pl0 = op_place(rv["ops"][0]) if "c" not in rv["ops"][0] else None
+                    if ol_ is not None and pl0 is not None and not pl0.get("p"):
+                        env[(lhs["l"], "payload")] = set(env.get(ol_, {"?"}))
                 for i_, o_ in enumerate(rv.get("ops") or []):      # constant components of a tuple: `(need_create, is_wrong_type)`
                     c_ = str(o_.get("c", "")).replace("const ", "")
                     if c_ in ("true", "false"):
